@@ -197,6 +197,27 @@ let handle = function
            | Inl _ -> out_tree r (forget t) false ^ " CRASH free of the result"
            | Inr h2 -> out_tree r (forget t) false ^ Printf.sprintf " leak=%d" (if h_live h2 = [] then 0 else 1)))
      | _ -> "?")
+  | ["reg"; mode; dh; pathh; vh] ->
+    (* the registry holds a heap-allocated tree; one call; the last reference frees the tree *)
+    let doc = (try parse_json (str_of_hex dh) with Parse_error -> raise Exit) in
+    let path = zl_of_string (str_of_hex pathh) in
+    let v = if vh = "-" then None else Some (parse_json (str_of_hex vh)) in
+    let (h0, root) = heap_of doc in
+    let res =
+      (match mode.[0], v with
+       | 'm', _ -> Some (iwjsreg_merge_model h0 root false path v)
+       | 's', Some n when (match n_ty n with TStr | TI64 | TF64 | TBool | TNull -> true | _ -> false) ->
+         Some (iwjsreg_merge_scalar h0 root false path (n_ty n) (n_vi n) (n_vs n))
+       | 'r', _ -> None
+       | _ -> None) in
+    (match res with
+     | None -> if mode.[0] = 'r' then "UNMODELLED (iwjsreg_replace: implementation and oracle only)" else "?"
+     | Some (Inl DoubleFree) -> "CRASH double-free"
+     | Some (Inl UseAfterFree) -> "CRASH use-after-free"
+     | Some (Inr (((r, h1), t), dirty)) ->
+       (match destroy h1 t with
+        | Inl _ -> out_tree r (forget t) false ^ " CRASH free of the result"
+        | Inr h2 -> out_tree r (forget t) false ^ Printf.sprintf " dirty=%d leak=%d" (if dirty then 1 else 0) (if h_live h2 = [] then 0 else 1)))
   | ["cmp"; ah; bh] ->
     let a = parse_json (str_of_hex ah) in
     let b = parse_json (str_of_hex bh) in
